@@ -91,10 +91,16 @@ _line_on = {"v": False}
 _STORES = {"STORE_ATTR", "STORE_SUBSCR", "DELETE_SUBSCR", "DELETE_ATTR", "STORE_GLOBAL"}
 
 
+_MUTATORS = {"append", "add", "update", "pop", "clear", "setdefault", "extend", "insert", "remove", "discard", "popitem"}
+
+
 def _writes_state(code):
+    """stores to attributes / items / globals, or calls of the mutating methods of the built-in containers (a list that
+    is grown with .append is written to as much as one that is assigned to)"""
     import dis
     try:
-        return any(i.opname in _STORES for i in dis.get_instructions(code))
+        return any(i.opname in _STORES or (i.opname in ("LOAD_ATTR", "LOAD_METHOD") and i.argval in _MUTATORS)
+                   for i in dis.get_instructions(code))
     except Exception:  # noqa: BLE001
         return False
 
